@@ -816,17 +816,23 @@ def url_concat(
         return url
     parsed_url = urlparse(url)
     if isinstance(args, dict):
-        parsed_query = parse_qsl(parsed_url.query, keep_blank_values=True)
+        parsed_query = parse_qsl(
+            parsed_url.query, keep_blank_values=True, errors="surrogateescape"
+        )
         parsed_query.extend(args.items())
     elif isinstance(args, list) or isinstance(args, tuple):
-        parsed_query = parse_qsl(parsed_url.query, keep_blank_values=True)
+        parsed_query = parse_qsl(
+            parsed_url.query, keep_blank_values=True, errors="surrogateescape"
+        )
         parsed_query.extend(args)
     else:
         err = "'args' parameter should be dict, list or tuple. Not {0}".format(
             type(args)
         )
         raise TypeError(err)
-    final_query = urlencode(parsed_query)
+    # surrogateescape round-trips percent-escapes that are not UTF-8 (e.g.
+    # latin-1 "%E9") instead of replacing them with U+FFFD.
+    final_query = urlencode(parsed_query, errors="surrogateescape")
     url = urlunparse(
         (
             parsed_url[0],
@@ -1272,11 +1278,23 @@ def _parse_header(line: str) -> tuple[str, dict[str, str]]:
             name = p[:i].strip().lower()
             value = p[i + 1 :].strip()
             params.append((name, native_str(value)))
-    decoded_params = email.utils.decode_params(params)
+    try:
+        decoded_params = email.utils.decode_params(params)
+    except TypeError:
+        # decode_params cannot sort a parameter given both as "name*" and as
+        # a numbered continuation "name*0" (None vs int); leave the
+        # parameters undecoded rather than fail.
+        decoded_params = list(params)
     decoded_params.pop(0)  # get rid of the dummy again
     pdict = {}
     for name, decoded_value in decoded_params:
-        value = email.utils.collapse_rfc2231_value(decoded_value)
+        try:
+            value = email.utils.collapse_rfc2231_value(decoded_value)
+        except ValueError:
+            # collapse_rfc2231_value only guards against unknown charsets
+            # (LookupError); a charset name containing NUL raises ValueError.
+            # Fall back to the undecoded text like it does for LookupError.
+            value = email.utils.unquote(decoded_value[2])
         if isinstance(decoded_value, tuple):
             # RFC 2231 values come back from decode_params re-quoted and
             # collapse_rfc2231_value does not unquote them (plain values
@@ -1337,9 +1355,16 @@ def split_host_and_port(netloc: str) -> tuple[str, int | None]:
     .. versionadded:: 4.1
     """
     match = _netloc_re.match(netloc)
+    port: int | None
     if match:
         host = match.group(1)
-        port: int | None = int(match.group(2))
+        try:
+            port = int(match.group(2))
+        except ValueError:
+            # int() refuses digit strings longer than the interpreter's
+            # limit; such a suffix is not a port.
+            host = netloc
+            port = None
     else:
         host = netloc
         port = None
